@@ -271,25 +271,35 @@ Definition sp_pix (rows : list (list bool)) (x y : Z) : bool :=
 (* -d, ..., d *)
 Definition sp_span (d : Z) : list Z := zseq (- d) (Z.to_nat (2 * d + 1)).
 
-(* the square ring at distance d from the centre has colour v *)
-Definition sp_ring_ok (rows : list (list bool)) (c d : Z) (v : bool) : bool :=
-  forallb (fun t =>
-    Bool.eqb (sp_pix rows (c + t) (c - d)) v && Bool.eqb (sp_pix rows (c + t) (c + d)) v
-    && Bool.eqb (sp_pix rows (c - d) (c + t)) v && Bool.eqb (sp_pix rows (c + d) (c + t)) v)
-    (sp_span d).
+(* a prescribed module: column, row, colour (true = dark) *)
+Definition pcell : Type := Z * Z * bool.
+
+Definition sp_cells_ok (rows : list (list bool)) (cells : list pcell) : bool :=
+  forallb (fun p : pcell =>
+    let '(x, y, v) := p in Bool.eqb (sp_pix rows x y) v) cells.
+
+(* the square ring at distance d from the centre, all of colour v *)
+Definition sp_ring (c d : Z) (v : bool) : list pcell :=
+  flat_map (fun t => [ (c + t, c - d, v); (c + t, c + d, v); (c - d, c + t, v); (c + d, c + t, v) ])
+           (sp_span d).
 
 (* bullseye: rings 0 .. r alternate, the centre is dark *)
-Definition sp_bullseye_ok (rows : list (list bool)) (c r : Z) : bool :=
-  forallb (fun d => sp_ring_ok rows c d (Z.even d)) (zseq 0 (Z.to_nat (r + 1))).
+Definition sp_bullseye (c r : Z) : list pcell :=
+  flat_map (fun d => sp_ring c d (Z.even d)) (zseq 0 (Z.to_nat (r + 1))).
 
 (* orientation marks in the corners of the ring at distance s: three dark
    modules top-left, two top-right, one bottom-right, none bottom-left *)
-Definition sp_orientation_ok (rows : list (list bool)) (c s : Z) : bool :=
-  let p := sp_pix rows in
-  p (c - s) (c - s) && p (c - s + 1) (c - s) && p (c - s) (c - s + 1)
-  && p (c + s) (c - s) && p (c + s) (c - s + 1) && negb (p (c + s - 1) (c - s))
-  && p (c + s) (c + s - 1) && negb (p (c + s) (c + s)) && negb (p (c + s - 1) (c + s))
-  && negb (p (c - s) (c + s)) && negb (p (c - s + 1) (c + s)) && negb (p (c - s) (c + s - 1)).
+Definition sp_orientation (c s : Z) : list pcell :=
+  [ (c - s, c - s, true); (c - s + 1, c - s, true); (c - s, c - s + 1, true);
+    (c + s, c - s, true); (c + s, c - s + 1, true); (c + s - 1, c - s, false);
+    (c + s, c + s - 1, true); (c + s, c + s, false); (c + s - 1, c + s, false);
+    (c - s, c + s, false); (c - s + 1, c + s, false); (c - s, c + s - 1, false) ].
+
+(* finder pattern: compact = bullseye of radius 4 and marks at distance 5;
+   full-range = radius 6 and marks at distance 7 *)
+Definition sp_finder (compact : bool) (c : Z) : list pcell :=
+  if compact then sp_bullseye c 4 ++ sp_orientation c 5
+  else sp_bullseye c 6 ++ sp_orientation c 7.
 
 (* mode message modules, clockwise from the top-left corner; in a full-range
    symbol the middle module of each side belongs to the reference grid *)
@@ -305,13 +315,12 @@ Definition sp_mode_positions (compact : bool) (c : Z) : list (Z * Z) :=
 (* reference grid of a full-range symbol: every row and column whose distance
    from the centre is a multiple of 16 alternates dark / light, dark where the
    distance along the line from the centre is even *)
-Definition sp_grid_ok (rows : list (list bool)) (n c : Z) : bool :=
+Definition sp_grid (n c : Z) : list pcell :=
   let lines := filter (fun t => (0 <=? t) && (t <? n))
                       (map (fun a => c + 16 * a) (sp_span (c / 16))) in
-  forallb (fun l =>
-    forallb (fun k =>
-      Bool.eqb (sp_pix rows l k) (Z.even (k - c)) && Bool.eqb (sp_pix rows k l) (Z.even (k - c)))
-      (zseq 0 (Z.to_nat n))) lines.
+  flat_map (fun l =>
+    flat_map (fun k => [ (l, k, Z.even (k - c)); (k, l, Z.even (k - c)) ])
+             (zseq 0 (Z.to_nat n))) lines.
 
 (* the data spiral.  Logical coordinates 0..base-1 ignore the reference grid;
    sp_phys inserts the grid lines *)
@@ -377,8 +386,8 @@ Definition aztec_read (rows : list (list bool)) : rres azread :=
   let n := zlength rows in
   if negb (forallb (fun r => zlength r =? n) rows) || Z.even n || (n <? 15) then RFail 1 else
   let c := n / 2 in
-  let is_compact := sp_bullseye_ok rows c 4 && sp_orientation_ok rows c 5 in
-  let is_full := sp_bullseye_ok rows c 6 && sp_orientation_ok rows c 7 in
+  let is_compact := sp_cells_ok rows (sp_finder true c) in
+  let is_full := sp_cells_ok rows (sp_finder false c) in
   if negb (is_compact || is_full) then RFail 2 else
   let compact := is_compact in
   let mbits := map (fun p => sp_pix rows (fst p) (snd p)) (sp_mode_positions compact c) in
@@ -390,7 +399,7 @@ Definition aztec_read (rows : list (list bool)) : rres azread :=
     let dwords := (if compact then sp_val (firstn 6 (skipn 2 mbits)) 0
                    else sp_val (firstn 11 (skipn 5 mbits)) 0) + 1 in
     if negb (sp_size compact layers =? n) then RFail 5 else
-    if negb compact && negb (sp_grid_ok rows n c) then RFail 6 else
+    if negb compact && negb (sp_cells_ok rows (sp_grid n c)) then RFail 6 else
     let raw := map (fun p => sp_pix rows (fst p) (snd p)) (sp_data_positions compact layers c) in
     let w := sp_word_size layers in
     let total := zlength raw in
